@@ -13,6 +13,7 @@ import (
 	"os"
 	"reflect"
 	"runtime"
+	"runtime/pprof"
 	"strings"
 	"sync"
 	"time"
@@ -242,9 +243,15 @@ func classify(err error) int {
 }
 
 // gortsplib goroutines still alive (stack signatures reduced to function names)
+var stackBuf = make([]byte, 256<<10)
+
 func libGoroutines() []string {
-	buf := make([]byte, 1<<20)
-	n := runtime.Stack(buf, true)
+	n := runtime.Stack(stackBuf, true)
+	for n == len(stackBuf) && len(stackBuf) < 16<<20 {
+		stackBuf = make([]byte, 2*len(stackBuf))
+		n = runtime.Stack(stackBuf, true)
+	}
+	buf := stackBuf
 	var out []string
 	for _, g := range strings.Split(string(buf[:n]), "\n\n") {
 		if !strings.Contains(g, "gortsplib/v5") {
@@ -590,6 +597,11 @@ func runCase(cs *Case, onRec func(reqRecord)) (res Result) {
 }
 
 func childMain() {
+	if pf := os.Getenv("CLIENTSM_CPUPROF"); pf != "" {
+		f, _ := os.Create(pf)
+		pprof.StartCPUProfile(f) //nolint:errcheck
+		defer pprof.StopCPUProfile()
+	}
 	in := bufio.NewReaderSize(os.Stdin, 1<<20)
 	out := bufio.NewWriter(os.Stdout)
 	for {
